@@ -62,6 +62,7 @@ type atSite struct {
 	Base      string   `json:"base"`
 	Write     bool     `json:"write"`
 	Atomic    bool     `json:"atomic"`
+	AfterStop bool     `json:"after_stop_guard"`
 	Locks     []atLock `json:"locks"`
 	Roots     []string `json:"roots"`
 	Pos       string   `json:"pos"`
@@ -371,6 +372,7 @@ func (a *accCollector) chain(lw *lgWalker, e *ast.SelectorExpr, k accKind, held 
 		}
 		if !skip {
 			site := &atSite{Path: append([]string{owner}, names...), Fn: lw.fn, Base: types.ExprString(base), Pos: a.w.pos(e.Sel.Pos()), frameHeld: copyHeld(held)}
+			site.AfterStop = lw.stopGuarded[site.Base]
 			switch k {
 			case accRead:
 			case accWrite:
@@ -618,7 +620,7 @@ func analyseAccess(w *world) *atResult {
 		for _, l := range s.Locks {
 			ls = append(ls, fmt.Sprintf("%s/%s/%v", l.Class, l.Mode, l.Own))
 		}
-		return fmt.Sprintf("%s|%s|%v|%v|%s|%s", strings.Join(s.Path, "."), s.Fn, s.Write, s.Atomic, strings.Join(ls, ","), strings.Join(s.Roots, ","))
+		return fmt.Sprintf("%s|%s|%v|%v|%v|%s|%s", strings.Join(s.Path, "."), s.Fn, s.Write, s.Atomic, s.AfterStop, strings.Join(ls, ","), strings.Join(s.Roots, ","))
 	}
 	sort.SliceStable(acc.sites, func(i, j int) bool { return key(acc.sites[i]) < key(acc.sites[j]) })
 	for i, s := range acc.sites {
@@ -636,7 +638,8 @@ func (r *atResult) coq() string {
 	var b strings.Builder
 	b.WriteString("(* GENERATED by harness/cmd/astx (access) from the Go sources of mochi-mqtt/server; do not edit.\n")
 	b.WriteString("   One record per syntactic access to a field of the shared broker types (non-test files):\n")
-	b.WriteString("   field path, function, write?, through sync/atomic?, locks held (class, mode, lock of the accessed\n")
+	b.WriteString("   field path, function, write?, through sync/atomic?, dominated by a guard\n")
+	b.WriteString("   \"v := obj.StopTime(); if v == 0 { continue/return }\" on the accessed object?, locks held (class, mode, lock of the accessed\n")
 	b.WriteString("   object itself?), goroutine roots reaching the function (H connection handler, W write loop,\n")
 	b.WriteString("   E event loop, A API caller, I initialisation, G other spawned goroutine, X no known root). *)\n")
 	b.WriteString("From Coq Require Import List String.\nFrom MV Require Import Conc.Locks Conc.Discipline.\nImport ListNotations.\nOpen Scope string_scope.\n\n")
@@ -656,7 +659,7 @@ func (r *atResult) coq() string {
 		for _, x := range s.Roots {
 			rs = append(rs, "R"+x)
 		}
-		fmt.Fprintf(&b, "  mk_asite [%s] %s %v %v [%s] [%s]%s\n", strings.Join(ps, "; "), coqString(s.Fn), s.Write, s.Atomic,
+		fmt.Fprintf(&b, "  mk_asite [%s] %s %v %v %v [%s] [%s]%s\n", strings.Join(ps, "; "), coqString(s.Fn), s.Write, s.Atomic, s.AfterStop,
 			strings.Join(ls, "; "), strings.Join(rs, "; "), sep)
 	}
 	b.WriteString("].\n\n")
